@@ -172,7 +172,8 @@ def run(ck, F, tier):
 
     # ---- T4: expansion shape -------------------------------------------------
     hb = F.body(ENUM + "::h")
-    tr = Tracer(F, r"sparse::SparseMatrix::\w+", mode="int")
+    # private non-const helpers of Code (e.g. an extracted "write the staircase" method) are expanded; the pub const accessors stay symbolic
+    tr = Tracer(F, r"sparse::SparseMatrix::\w+", mode="int", inline=lambda p: F.private_helper(p, ENUM + "::"))
     env = {}
     tr.bind(hb.params[0], var("self"), env)
     try:
